@@ -61,7 +61,8 @@ def run(ck, tier):
     ck.saw(f)
     cfg = Cfg(f)
     pv = Prov(f)
-    out_local = {n: l for l, n in f.debug_names().items()}.get("output")
+    # (a helper spliced in may have a parameter of the same name: the function's own local is the one with the lowest number)
+    out_local = min([l for l, n in f.debug_names().items() if n == "output"], default=None)
     if out_local is None:
         ck.refuted("R-C18-length", "anchor-missing:output", f.span, "the output buffer local was not found")
         return
@@ -103,6 +104,13 @@ def run(ck, tier):
                 if src and _base_local(f, pv, src[0]["args"][0]) == out_local:
                     stores.append((bi, s, src[0]))
     n_sites = len(stores)
+    # in-place case change of one element: output[i].make_ascii_uppercase() - case-only and on its own index by definition
+    for bi, t in f.calls():
+        if method(t) in ("make_ascii_uppercase", "make_ascii_lowercase") and "char" in norm(inst_of(t)) and t["args"]:
+            src = [x for x in flatten(pv.trace_operand(t["args"][0])) if x[0] == "call" and last(norm(x[3] or "")) == "index_mut"]
+            if src and all(_base_local(f, pv, f.blocks[x[1]]["t"]["args"][0]) == out_local for x in src):
+                n_sites += 1
+                ck.proved(rule, "make_title_case:store:%s" % ("upper" if "upper" in method(t) else "lower"), f.loc(t["ln"]), "output[i].%s(): an ASCII case change of that element in place" % method(t))
     for bi, s, imut in stores:
         val = pv.trace_operand(s["rv"]["op"]) if s["rv"]["k"] == "use" else set()
         ok = False
@@ -165,7 +173,7 @@ def _first(ck, p, byk):
     f = fs[0]
     cfg = Cfg(f)
     pv = Prov(f)
-    ups = [bi for bi, t in f.calls() if _ascii_case_map(p, ("call", bi, def_of(t), inst_of(t))) == "upper"]
+    ups = [bi for bi, t in f.calls() if _ascii_case_map(p, ("call", bi, def_of(t), inst_of(t))) == "upper" or (method(t) == "make_ascii_uppercase" and "char" in norm(inst_of(t)))]
     eqs = []
     for bi, b in enumerate(f.blocks):
         if b["cleanup"]:
@@ -192,6 +200,29 @@ def _first(ck, p, byk):
     if ordinal:
         bi, sx = ordinal[0]
         t = f.blocks[bi]["t"]
+        if t["k"] != "switch":
+            # the result was bound to a name (`let is_first = index == 0`) and is branched on later
+            flag = sx["lhs"][0]
+            later = []
+            for b2, blk in enumerate(f.blocks):
+                t2 = blk["t"]
+                if t2["k"] == "switch" and place_of(t2["discr"]):
+                    l2 = place_of(t2["discr"])[0]
+                    srcs, grew = {l2}, True
+                    while grew:
+                        grew = False
+                        for l3 in list(srcs):
+                            for (b3, si, kind, x2) in pv.defs.get(l3, []):
+                                if kind == "assign" and x2["rv"]["k"] == "use" and place_of(x2["rv"]["op"]) and place_of(x2["rv"]["op"])[0] not in srcs:
+                                    srcs.add(place_of(x2["rv"]["op"])[0])
+                                    grew = True
+                    if flag in srcs:
+                        later.append(b2)
+            if not later:
+                ck.undecided(rule, "make_title_case:first-word", f.loc(sx["ln"]), "`ordinal == 0` is computed but no branch on its value was found: how it leads to the upper-casing is not of a recognised form")
+                return
+            bi = later[0]
+            t = f.blocks[bi]["t"]
         reach_ok = False
         if t["k"] == "switch":
             # the edge taken when the comparison is true
